@@ -70,7 +70,12 @@ def lib():
 
 
 def warm():
-    A.warm()
+    # Warm-up is an optimisation only: if the library is broken enough to raise here, the clauses report it
+    # (as a VIOLATION with the failing case) instead of the run dying with a harness error.
+    try:
+        A.warm()
+    except Exception:  # noqa: BLE001 -- deliberately broad, see above
+        pass
 
 
 # ------------------------------------------------------------------------------------------------
